@@ -10,6 +10,7 @@ import (
 	"io"
 	"net/http"
 	"net/url"
+	"runtime/debug"
 	"sort"
 	"strings"
 	"sync"
@@ -130,6 +131,8 @@ type worldB struct {
 	stateless      bool // race mode: record nothing, take no harness lock on refinery's paths
 	bufferedAtStop map[string]bool
 	queuedAtStop   bool
+	authCalls      int
+	crashed        bool   // a component panicked while stopping: what is left of the node keeps running in the bubble
 	authMode       string // ok | fail | timeout
 	// Honeycomb too busy: from busyFrom on, the next busyLeft batches that have
 	// not been refused before are answered 429/503 with Retry-After
@@ -223,7 +226,7 @@ func newWorldB(p *Plan, out *Outcome, o bOpts) *worldB {
 			TraceIdFieldNames:      []string{"trace.trace_id", "traceId"},
 			ParentIdFieldNames:     []string{"trace.parent_id", "parentId"},
 			AddRuleReasonToTrace:   true,
-			GetGeneralConfigVal:    config.GeneralConfig{ConfigReloadInterval: config.Duration(5 * time.Minute)}, // non-zero: the watcher suppresses re-publishing (MockConfig.Reload always reports a change)
+			GetGeneralConfigVal:    config.GeneralConfig{ConfigReloadInterval: config.Duration(us(p.Get("cfg_reload_us", 300_000_000)))}, // non-zero: the watcher suppresses re-publishing (MockConfig.Reload always reports a change)
 		}
 		w.nodes = append(w.nodes, n)
 	}
@@ -386,7 +389,24 @@ func (n *bNode) shutdown() {
 	if !n.w.stateless {
 		n.noteBuffered()
 	}
-	startstop.Stop(n.objects, nullStartStopLogger{})
+	func() {
+		// a panic while the components are being stopped would end the process on
+		// the spot, with everything not yet flushed
+		defer func() {
+			if r := recover(); r != nil {
+				site := "shutdown"
+				for _, line := range strings.Split(string(debug.Stack()), "\n") {
+					if strings.HasPrefix(line, "github.com/honeycombio/refinery/") && !strings.Contains(line, "/verifsim.") {
+						site = strings.TrimPrefix(line[:strings.LastIndex(line, "(")], "github.com/honeycombio/refinery/")
+						break
+					}
+				}
+				n.w.out.Violate("C36", "shutdown_panicked", site, "node %s: stopping the components panicked: %v", n.name, r)
+				n.w.crashed = true
+			}
+		}()
+		startstop.Stop(n.objects, nullStartStopLogger{})
+	}()
 	heapNodes.Delete(n.coll) // the registry must not keep finished nodes (and all they hold) alive
 }
 
@@ -414,6 +434,16 @@ func (w *worldB) honeycomb(rec *NetRec, req *http.Request) *SimResp {
 			w.mu.Lock()
 			mode = w.authMode
 			w.mu.Unlock()
+		}
+		if mode == "flaky" {
+			// every second lookup fails, whoever asks
+			w.mu.Lock()
+			w.authCalls++
+			odd := w.authCalls%2 == 1
+			w.mu.Unlock()
+			if odd {
+				mode = "fail"
+			}
 		}
 		switch mode {
 		case "fail":
